@@ -21,9 +21,24 @@ DIGITS = {
 _PH = re.compile(r'\$\{(\w+)\}|\$(BUint|BInt|BASE|HALF|DMAX|HBASE|LOGDB|HDB|DBM1|DD|DB|SD|D)(?![A-Za-z_])')
 
 
-def subst(text, digit):
+_PH2 = re.compile(r'\$\{(\w+)2\}|\$(BUint|BInt|BASE|HALF|DMAX|HBASE|LOGDB|HDB|DBM1|DD|DB|SD|D)2(?![A-Za-z_0-9])')
+
+
+def subst(text, digit, digit2=None):
+    """`digit` may be a pair 'AxB' (pair units): `$D2`, `$BUint2`, `${DB2}` ... come from the second type B"""
+    if digit2 is None and 'x' in digit:
+        digit, digit2 = digit.split('x')
+    if digit2 is not None:
+        d2 = DIGITS[digit2]
+        text = _PH2.sub(lambda m: d2[m.group(1) or m.group(2)], text)
     d = DIGITS[digit]
     return _PH.sub(lambda m: d[m.group(1) or m.group(2)], text)
+
+
+def split_pair(digit):
+    """'u64xu32' -> ('u64', 'u32'); 'u64' -> ('u64', None)"""
+    a, _, b = digit.partition('x')
+    return a, (b or None)
 
 
 class Entry:
@@ -33,13 +48,20 @@ class Entry:
         return f'Entry({self.kind} {self.key} {self.opts} @{self.unit}:{self.line})'
 
 
-_HDR = re.compile(r'^//!\s*(raw|spec|proof|fn|const|struct|trait)\b\s*([^\[\n]*?)\s*(\[[^\]]*\])?\s*$')
+# the KEY may itself contain brackets (`impl(From<[$D;N]>for$BUint<N>)::from`); options are the last
+# bracket group and must be separated from the KEY by white space
+_HDR = re.compile(r'^//!\s*(raw|spec|proof|fn|const|struct|trait)\b\s*(.*?)(?:\s+(\[[^\[\]]*\]))?\s*$')
 
 
 def parse_overlay_file(path, unit):
     entries = []
     cur = None
+    file_scope = None
     for ln, line in enumerate(open(path).read().split('\n'), 1):
+        msc = re.match(r'^//!\s*scope\s+(\S+)\s*$', line)
+        if msc:
+            file_scope = msc.group(1)
+            continue
         if line.startswith('//!'):
             m = _HDR.match(line)
             if not m:
@@ -55,6 +77,8 @@ def parse_overlay_file(path, unit):
                         cur.opts[k] = v
                     else:
                         cur.opts[kv] = '1'
+            if file_scope is not None and 'scope' not in cur.opts:
+                cur.opts['scope'] = file_scope
             cur.text = ''
             cur.unit = unit
             cur.line = ln
